@@ -273,33 +273,40 @@ pub fn explore<Sys: System>(sys: &Sys, lim: &Limits) -> Report {
 			last_frontier_ids = frontier.iter().map(|f| f.1).collect();
 			break;
 		}
-		type Child<S, A> = (Option<S>, A, u32, Option<Failure>, bool);
+		// (state, action, deviations, failure, exempt, key of the state - computed in the parallel phase;
+		// a state whose key is already in `seen` is dropped there and then)
+		type Child<S, A> = (Option<S>, A, u32, Option<Failure>, bool, Option<u128>);
 		let mut next_frontier: Vec<(Sys::State, u32, u32)> = Vec::new();
 		last_frontier_ids = frontier.iter().map(|f| f.1).collect();
 		for chunk in frontier.chunks(1 << 16) {
+			let seen_ro = &seen;
 			let expanded: Vec<(u32, u32, Vec<Child<Sys::State, Sys::Act>>)> = chunk
 				.par_iter()
 				.map(|(s, id, dev)| {
-					let mut out = Vec::new();
+					let mut out: Vec<Child<Sys::State, Sys::Act>> = Vec::new();
 					for (a, cost) in sys.actions(s, depth) {
 						let nd = dev + cost as u32;
 						if nd > lim.max_dev {
 							continue;
 						}
-						match sys.step(s, &a) {
-							Step::Next(n) => out.push((Some(n), a, nd, None, false)),
-							Step::Exempt(n, _) => out.push((Some(n), a, nd, None, true)),
-							Step::Violation(f) => out.push((None, a, nd, Some(f), false)),
-							Step::ViolationContinue(n, f) => out.push((Some(n), a, nd, Some(f), false)),
-							Step::Prune => {}
-						}
+						let (n, f, ex) = match sys.step(s, &a) {
+							Step::Next(n) => (Some(n), None, false),
+							Step::Exempt(n, _) => (Some(n), None, true),
+							Step::Violation(f) => (None, Some(f), false),
+							Step::ViolationContinue(n, f) => (Some(n), Some(f), false),
+							Step::Prune => continue,
+						};
+						let k = n.as_ref().and_then(|n| mk_key(sys.key(n), nd, depth + 1));
+						// already known from an earlier layer / chunk: no need to carry the state
+						let n = if k.map(|k| seen_ro.contains(&k)).unwrap_or(false) { None } else { n };
+						out.push((n, a, nd, f, ex, k));
 					}
 					(*id, *dev, out)
 				})
 				.collect();
 			for (pid, _pdev, children) in expanded {
 				let mut fresh = 0;
-				for (ns, a, nd, fail, exempt) in children.into_iter() {
+				for (ns, a, nd, fail, exempt, k) in children.into_iter() {
 					rep.transitions += 1;
 					if exempt {
 						rep.exempt += 1;
@@ -316,7 +323,7 @@ pub fn explore<Sys: System>(sys: &Sys, lim: &Limits) -> Report {
 						});
 					}
 					if let Some(ns) = ns {
-						if let Some(k) = mk_key(sys.key(&ns), nd, depth + 1) {
+						if let Some(k) = k {
 							if !seen.insert(k) {
 								continue;
 							}
